@@ -17,11 +17,16 @@ import contracts.C16 as C16     # noqa: F401  find_duplicates
 import contracts.C09 as C09     # noqa: F401  CodeBase.__iter__
 import contracts.C08 as C08     # noqa: F401  find block (per entry; platform/entry order irrelevant)
 
+import contracts.C15 as _C15      # noqa: E402,F401
+
 UNITS = [
     "codebasin.report:coverage", "codebasin.report:average_coverage", "codebasin.report:distance",
     "codebasin.report:extract_platforms", "codebasin.report:divergence",
     "codebasin.finder:ParserState.get_setmap", "codebasin.report:find_duplicates",
     "codebasin:CodeBase.__iter__", "codebasin.finder:find@loop4",
+    # a file that is already known keeps its tree, its association map and its recorded language whoever asks for it
+    # again: what a later platform or includer does cannot change what an earlier one saw (order of platforms)
+    "codebasin.finder:ParserState.insert_file",
 ]
 
 
